@@ -541,8 +541,8 @@ func genDesc(r *hx.Rng) Desc {
 		if r.Chance(1, 10) {
 			nt = 0
 		}
-		shape := r.Intn(4)
-		if shape == 1 { // unwelded
+		shape := r.Intn(5)
+		if shape == 1 || shape == 4 { // unwelded; 4: as many corners as vertices, but not the identity
 			if nt == 0 {
 				nt = 1
 			}
@@ -563,6 +563,9 @@ func genDesc(r *hx.Rng) Desc {
 		}
 		if shape == 3 && len(d.Idx) >= 3 { // degenerate triangle
 			d.Idx[1] = d.Idx[0]
+		}
+		if shape == 4 && r.Bool() { // reordered corners (e.g. after a winding flip)
+			copy(d.Idx, r.Perm(len(d.Idx)))
 		}
 	}
 	// attributes
@@ -890,6 +893,11 @@ func corner() []Desc {
 	tab[4].Type = "uchar"
 	out = append(out, Desc{Topo: "point", N: 2, Idx: []int{0, 1}, Kind: "custom", Writers: tab, Unspec: true,
 		Attrs: []Attr{{3, "Position", [][]float64{{1, 2, 3}, {4, 5, 6}}}, {1, "Opacity", [][]float64{{f32(128.0 / 255)}, {1}}}}})
+	// as many corners as vertices but not the identity (winding flip of an unwelded mesh): the reader must still
+	// gather the attributes through the indices
+	out = append(out, Desc{Topo: "triangle", N: 6, Idx: []int{0, 2, 1, 3, 5, 4}, Kind: "default",
+		Attrs: []Attr{{3, "Position", [][]float64{{0, 0, 0}, {1, 0, 0}, {1, 1, 0}, {0, 1, 0}, {2, 2, 2}, {3, 3, 3}}},
+			{2, "TexCoord", [][]float64{{0, 0}, {1, 0}, {1, 1}, {0, 0.25}, {0.5, 0.5}, {0.75, 0.125}}}}})
 	// custom tables: texture coordinates claimed per vertex (s, t) on a textured quad; int / double storage at the
 	// limits of the types
 	out = append(out,
